@@ -72,6 +72,10 @@ impl Inst {
         self.methods = None;
     }
 
+    pub fn is_open(&self) -> bool {
+        self.methods.is_some()
+    }
+
     pub fn method_names(&self) -> Vec<String> {
         self.methods.as_ref().unwrap().method_names().map(|s| s.to_string()).collect()
     }
